@@ -139,11 +139,11 @@ def convGemm (dw dx : Dt) (padValue : Int) (wz xz : Int) (ts : List Tap) : Int :
     (ts.map fun t => lhsToU8 dw t.wt)
     (ts.map fun t => if t.valid then rhsToI8 dx t.x else padValue)
 
-/-- Value packed for out-of-image taps by `pack_block_int8` **after** the fix recorded in
-`findings/C17.json`: the (shift cast) input zero point. -/
+/-- Value packed for out-of-image taps by `pack_block_int8` (since the fix recorded in
+`findings/C17.json`, `C17-convinteger-padding`): the (shift cast) input zero point. -/
 def padFixed (dx : Dt) (xz : Int) : Int := rhsToI8 dx xz
 
-/-- … and **before** the fix: the constant 0 of the packed `i8` domain. -/
+/-- … and before that fix: the constant 0 of the packed `i8` domain. -/
 def padOld (_dx : Dt) (_xz : Int) : Int := 0
 
 def convInteger (dw dx : Dt) (pad : Dt → Int → Int) (p : Conv) (wz : ZeroPoint) (xz : Int)
